@@ -72,6 +72,9 @@ Section Verify.
     - left. exists a, b, c, e. auto.
   Qed.
 
+  Lemma up_ne L : L <> [] -> up L <> [].
+  Proof. intros H E. apply up_nil_iff in E. contradiction. Qed.
+
   Lemma up_last_index L : L <> [] -> length (up L) - 1 = (length L - 1) / 2.
   Proof.
     intro H. rewrite up_length. destruct L; [congruence|]. simpl length. lia.
@@ -297,6 +300,15 @@ Section Verify.
     rewrite <- Hl. symmetry. apply firstn_all.
   Qed.
 
+  Lemma ups_last_index : forall t D, D <> [] -> length (ups t D) - 1 = (length D - 1) / 2 ^ t.
+  Proof.
+    induction t as [|t IH]; intros D HDne.
+    - change (2 ^ 0) with 1. rewrite Nat.div_1_r. reflexivity.
+    - cbn [MerkleSpec.ups]. rewrite IH by (apply up_ne; exact HDne).
+      rewrite (up_last_index D HDne), Nat.pow_succ_r', Nat.div_div by (try pose proof (pow2_pos t); lia).
+      reflexivity.
+  Qed.
+
   Lemma top_is_mth L : L <> [] -> top_is L (mth L).
   Proof.
     intro H. exists (length L). apply ups_mth; [exact H|].
@@ -342,12 +354,7 @@ Section Verify.
       assert (Em : m = (i + 1) * 2 ^ t) by nia.
       set (L := ups t D).
       assert (HLne : L <> []) by (apply ups_length_pos; exact HDne).
-      assert (HlenL : length L - 1 = (length D - 1) / 2 ^ t).
-      { clear - HDne Hpt. subst L. revert D HDne. induction t as [|t IH]; intros D HDne.
-        - change (2 ^ 0) with 1. rewrite Nat.div_1_r. reflexivity.
-        - cbn [MerkleSpec.ups]. rewrite IH by (rewrite up_nil_iff; exact HDne).
-          rewrite (up_last_index D HDne), Nat.pow_succ_r', Nat.div_div by (try pose proof (pow2_pos t); lia).
-          reflexivity. }
+      assert (HlenL : length L - 1 = (length D - 1) / 2 ^ t) by (apply ups_last_index; exact HDne).
       rewrite <- HlenL.
       assert (HiL : i < length L).
       { assert (i <= (length D - 1) / 2 ^ t); [|lia].
